@@ -1194,8 +1194,11 @@ class Model:
         for node in self._nodes.values():
             node.clear_state()
 
-        empty = deepcopy(self)
-        self.state = backup
+        try:
+            empty = deepcopy(self)
+        finally:
+            # a failing copy must not leave the model without its values
+            self.state = backup
 
         return empty
 
